@@ -116,23 +116,30 @@ func (c *WhipClient) Kick(id string, user *string, message string) error {
 
 func (c *WhipClient) Close() error {
 	c.mu.Lock()
-	defer c.mu.Unlock()
 	g := c.group
 	if g == nil {
+		c.mu.Unlock()
 		return nil
 	}
-	if c.connection != nil {
-		id := c.connection.Id()
-		c.connection.pc.OnICEConnectionStateChange(nil)
-		c.connection.pc.Close()
-		c.connection = nil
-		for _, c := range g.GetClients(c) {
-			c.PushConn(g, id, nil, nil, "")
+	connection := c.connection
+	c.connection = nil
+	c.mu.Unlock()
+
+	// don't call into the group with c.mu taken, the group calls
+	// c.Permissions with its own lock taken.
+	if connection != nil {
+		id := connection.Id()
+		connection.pc.OnICEConnectionStateChange(nil)
+		connection.pc.Close()
+		for _, cc := range g.GetClients(c) {
+			cc.PushConn(g, id, nil, nil, "")
 		}
-		c.connection = nil
 	}
 	group.DelClient(c)
+
+	c.mu.Lock()
 	c.group = nil
+	c.mu.Unlock()
 	return nil
 }
 
